@@ -35,6 +35,8 @@ func runC06(e *Env) {
 	ruleC06Entry(e, "C06.entry")
 	ruleSuffix(e, "C06.numorder")
 	ruleLatest(e, "C06.latest")
+	ruleC06Scan(e, "C06.scan")
+	e.S.Floor("C06.scan", 3)
 	// the string entry points order the texts they are given: the parser maps the whole text to the compared fields
 	ruleSemGate(e, "C06.parse", "C06.parse")
 	ruleNoMatchRejects(e, "C06.parse", e.Fn("C06.parse", "sem", "unmarshalText"))
@@ -442,4 +444,213 @@ func errEdgeOf(call *ssa.Call) *ssa.BasicBlock {
 		}
 	}
 	return nil
+}
+
+// ruleC06Scan: the shape of the character scan that finds the first difference of two pre-release texts, the shorter
+// one first: a counter from 0 in unit steps while it is below the length of the shorter operand; at the first index
+// where the two operands differ the result is that of the remainder comparison, handed back unchanged, of both
+// operands cut at one common index (which index: C06.numorder's digit-run obligation); when the scan ends without a
+// difference the result is 0 under equal lengths and 1 otherwise — the longer text, whose prefix the shorter one is,
+// is the greater ("a longer list above its own prefix", in the sign convention cmp(longer, shorter) that
+// C06.numorder reads off the remainder comparison and C14.swap maps to the public result).
+func ruleC06Scan(e *Env, rule string) {
+	fn := e.Fn(rule, "sem", "comparePreRelease")
+	if fn == nil || len(fn.Params) != 2 {
+		return
+	}
+	site := flow.FnName(fn)
+	whole := func(v ssa.Value) *ssa.Parameter {
+		for i := 0; i < 6; i++ {
+			switch x := v.(type) {
+			case *ssa.Parameter:
+				return x
+			case *ssa.MultiConvert:
+				v = x.X
+			case *ssa.Convert:
+				v = x.X
+			case *ssa.ChangeType:
+				v = x.X
+			default:
+				return nil
+			}
+		}
+		return nil
+	}
+	lenOf := func(v ssa.Value) *ssa.Parameter {
+		if a, ok := flow.IsLenOf(v); ok {
+			return whole(a)
+		}
+		return nil
+	}
+	S, L := fn.Params[0], fn.Params[1]
+	// the scan loop
+	var head *ssa.BasicBlock
+	var ctr *ssa.Phi
+	for _, b := range fn.Blocks {
+		iff, ok := b.Instrs[len(b.Instrs)-1].(*ssa.If)
+		if !ok {
+			continue
+		}
+		cmp, ok := iff.Cond.(*ssa.BinOp)
+		if !ok || (cmp.Op != token.LSS && cmp.Op != token.NEQ) {
+			continue
+		}
+		ph, ok := cmp.X.(*ssa.Phi)
+		if !ok || ph.Block() != b || len(ph.Edges) != 2 || lenOf(cmp.Y) == nil {
+			continue
+		}
+		unit := false
+		for k, ed := range ph.Edges {
+			if bo, ok := ed.(*ssa.BinOp); ok && bo.Op == token.ADD && bo.X == ssa.Value(ph) {
+				if one, ok := flow.ConstInt(bo.Y); ok && one == 1 {
+					if z, ok := flow.ConstInt(ph.Edges[1-k]); ok && z == 0 {
+						unit = true
+					}
+				}
+			}
+		}
+		if !unit {
+			continue
+		}
+		// the operand whose length bounds the scan is the shorter one (that the other is at least as long at every
+		// call site is what the index obligation on its subscript proves: C18.T2)
+		if lenOf(cmp.Y) != S {
+			S, L = L, S
+		}
+		head, ctr = b, ph
+	}
+	if head == nil {
+		e.S.Unk(rule, site, "scan", "no scan loop `for i := 0; i < len(shorter); i++` found", e.Pos(fn))
+		return
+	}
+	e.S.Ok(rule, site, "scan bound", "counter from 0 in unit steps while below the length of one operand ("+S.Name()+", the shorter one: C18.T2 proves the subscript of the other)", e.posOfBlock(head))
+	// the difference test on the same index of both operands
+	var differ *ssa.BasicBlock
+	body := head.Succs[0]
+	if iff, ok := body.Instrs[len(body.Instrs)-1].(*ssa.If); ok {
+		if cmp, ok := iff.Cond.(*ssa.BinOp); ok && (cmp.Op == token.NEQ || cmp.Op == token.EQL) {
+			at := func(v ssa.Value) (x, index ssa.Value, ok bool) { // string indexing: Index (Lookup in older SSA)
+				switch t := v.(type) {
+				case *ssa.Index:
+					return t.X, t.Index, true
+				case *ssa.Lookup:
+					return t.X, t.Index, !t.CommaOk
+				}
+				return nil, nil, false
+			}
+			lxX, lxI, okx := at(cmp.X)
+			lyX, lyI, oky := at(cmp.Y)
+			if okx && oky && lxI == ssa.Value(ctr) && lyI == ssa.Value(ctr) {
+				px, py := whole(lxX), whole(lyX)
+				if px != nil && py != nil && px != py && (px == S || px == L) && (py == S || py == L) {
+					differ = body.Succs[map[bool]int{true: 0, false: 1}[cmp.Op == token.NEQ]]
+					same := body.Succs[map[bool]int{true: 1, false: 0}[cmp.Op == token.NEQ]]
+					// the equal side must lead back to the loop head only
+					entered := true // only from the difference test (back edges of a loop headed by the block aside)
+					for _, p := range differ.Preds {
+						if p != body && !differ.Dominates(p) {
+							entered = false
+						}
+					}
+					if !entered || !(len(same.Succs) == 1 && same.Succs[0] == head || same == head) {
+						differ = nil
+					}
+				}
+			}
+		}
+	}
+	if differ == nil {
+		e.S.Unk(rule, site, "difference", "the loop body is not `if shorter[i] != longer[i] { … }` followed by the next index", e.posOfBlock(body))
+		return
+	}
+	e.S.Ok(rule, site, "difference", "each step compares the two operands at the counter; equal bytes continue the scan", e.posOfBlock(body))
+	exit := head.Succs[1]
+	nDiff, nEnd := 0, 0
+	bad := ""
+	var badAt *ssa.BasicBlock
+	for _, b := range fn.Blocks {
+		ret, ok := b.Instrs[len(b.Instrs)-1].(*ssa.Return)
+		if !ok {
+			continue
+		}
+		vals := flow.ReturnValues(ret)
+		if len(vals) != 1 {
+			bad, badAt = "unexpected result count", b
+			continue
+		}
+		switch {
+		case exit == b || exit.Dominates(b):
+			nEnd++
+			k, isK := flow.ConstInt(vals[0])
+			eq := 0 // 1: under equal lengths, -1: under different lengths
+			for _, g := range fn.Blocks {
+				iff, ok := g.Instrs[len(g.Instrs)-1].(*ssa.If)
+				if !ok || !(exit == g || exit.Dominates(g)) {
+					continue
+				}
+				cmp, ok := iff.Cond.(*ssa.BinOp)
+				if !ok || (cmp.Op != token.EQL && cmp.Op != token.NEQ) {
+					continue
+				}
+				px, py := lenOf(cmp.X), lenOf(cmp.Y)
+				if px == nil || py == nil || px == py {
+					continue
+				}
+				for si, succ := range g.Succs {
+					if len(succ.Preds) == 1 && (succ == b || succ.Dominates(b)) {
+						if (si == 0) == (cmp.Op == token.EQL) {
+							eq = 1
+						} else {
+							eq = -1
+						}
+					}
+				}
+			}
+			switch {
+			case !isK:
+				bad, badAt = "after a scan without difference the result is not a constant", b
+			case eq == 0:
+				bad, badAt = "after a scan without difference the result does not depend on the two lengths being equal", b
+			case eq == 1 && k != 0:
+				bad, badAt = fmt.Sprintf("equal texts compare as %d", k), b
+			case eq == -1 && k != 1:
+				bad, badAt = fmt.Sprintf("a text that is a proper prefix of the other compares as %d: the longer one must be the greater (1 in the convention cmp(longer, shorter))", k), b
+			}
+		case differ == b || differ.Dominates(b):
+			nDiff++
+			call, ok := vals[0].(*ssa.Call)
+			var g *ssa.Function
+			if ok {
+				g = e.C.StaticCallee(&call.Call)
+			}
+			if g == nil || g.Pkg != fn.Pkg || len(call.Call.Args) != 2 {
+				bad, badAt = "at the first difference the result is not the remainder comparison handed back unchanged", b
+				continue
+			}
+			var lows [2]ssa.Value
+			var roots [2]*ssa.Parameter
+			okCut := true
+			for i, a := range call.Call.Args {
+				sl, ok := a.(*ssa.Slice)
+				if !ok || sl.High != nil || sl.Low == nil || whole(sl.X) == nil {
+					okCut = false
+					break
+				}
+				lows[i], roots[i] = sl.Low, whole(sl.X)
+			}
+			if !okCut || lows[0] != lows[1] || roots[0] == roots[1] {
+				bad, badAt = "the remainders compared at the first difference are not the two operands cut at one common index up to their ends", b
+			}
+		default:
+			bad, badAt = "a return is reachable neither from the first difference nor from the end of the scan", b
+		}
+	}
+	switch {
+	case bad != "":
+		e.S.Bad(rule, site, "results", bad, e.posOfBlock(badAt), "1.0.0-alpha vs 1.0.0-alpha.1")
+	case nDiff == 0 || nEnd < 2:
+		e.S.Unk(rule, site, "results", fmt.Sprintf("%d return(s) at a difference, %d at the end of the scan: expected at least one and two", nDiff, nEnd), e.Pos(fn))
+	default:
+		e.S.Ok(rule, site, "results", fmt.Sprintf("%d return(s) at the first difference (the remainder comparison of both operands cut at one index), %d at the end of the scan (0 under equal lengths, 1 for a proper prefix)", nDiff, nEnd), e.Pos(fn))
+	}
 }
